@@ -678,7 +678,7 @@ def run(tier, replay=None):
     impl = Impl()
 
     maxlen = 10 if tier == "quick" else 18
-    count = 1500 if tier == "quick" else 9000
+    count = 5000 if tier == "quick" else 40000
     cases = fixed_cases() + [gen_case(rng, maxlen) for _ in range(count)]
 
     def sweep(cases, label):
